@@ -282,7 +282,7 @@ FlushWith(s, fk) ==
                    !.life = [o \in Objs |-> IF o \in P THEN (IF s1.wasdel[o] THEN "deleted" ELSE "persistent")    \* deviation a
                                             ELSE IF o \in D \cup SW THEN "deleted" ELSE s1.life[o]],
                    !.key = [o \in Objs |-> IF o \in P \cup KS THEN s1.pk[o] ELSE s1.key[o]],
-                   !.imap = imap2, !.new = <<>>, !.sdel = {}, !.untr = @ \ (D \cup SW),
+                   !.imap = imap2, !.new = <<>>, !.sdel = {},
                    !.mod = [o \in Objs |-> IF o \in P \cup U THEN FALSE ELSE s1.mod[o]],      \* deleted objects keep their history
                    !.cv = [o \in Objs |-> IF o \in P \cup U THEN NoHist ELSE s1.cv[o]],
                    !.wasdel = [o \in Objs |-> IF o \in D \cup SW THEN TRUE ELSE s1.wasdel[o]],
@@ -314,7 +314,7 @@ DoCommit(s) ==
                 gone == {o \in det : s1.life[o] = "deleted"}
                 again == {o \in det : s1.life[o] = "detached" /\ s1.wasdel[o]}    \* deviation g: expunged inside a savepoint, still in the outer snapshot
                 s2 == IF Eoc THEN ExpireSet(s1, InMapSet(s1)) ELSE s1
-            IN R(GCommit([s2 EXCEPT !.committed = s1.work, !.tx = <<>>,
+            IN R(GCommit([s2 EXCEPT !.committed = s1.work, !.tx = <<>>, !.untr = @ \ gone,
                             !.life = [o \in Objs |-> IF o \in gone THEN "detached" ELSE s1.life[o]],
                             !.ev = @ \cup {<<"deleted_to_detached", o, 1>> : o \in gone \cup again}]), "ok")
 \* SessionTransaction.rollback(): an ACTIVE boundary is restored; a DEACTIVE one (failed flush: restored then) only when the
